@@ -732,7 +732,12 @@ func (c *FuncCtx) havocLoop(st *State, li *loopInfo) {
 			ft := li.modHeap.ctypes[k]
 			wholeNeeded := false
 			var refs []string
+			cvars := make([]*types.Var, 0, len(li.modHeap.cells[k]))
 			for v := range li.modHeap.cells[k] {
+				cvars = append(cvars, v)
+			}
+			sort.Slice(cvars, func(i, j int) bool { return cvars[i].Pos() < cvars[j].Pos() })
+			for _, v := range cvars {
 				pv, ok := st.vars[v]
 				if !ok || (modified[v] && !c.heapLocals[v]) {
 					wholeNeeded = true
